@@ -24,7 +24,7 @@ DEFAULT_VERSIONS = {0: (0, 2), 1: (0, 2), 2: (0, 0), 3: (0, 0), 8: (0, 2), 9: (0
 
 class LogEntry(object):
     """A stored unit: one plain message or one compressed wrapper with its inner messages."""
-    __slots__ = ("msgs", "magic", "wrapper", "raw", "corrupt")
+    __slots__ = ("msgs", "magic", "wrapper", "raw", "corrupt", "raw_clean", "heal")
 
     def __init__(self, msgs, magic, wrapper, raw=None):
         self.msgs = msgs
@@ -42,8 +42,8 @@ class LogEntry(object):
         return self.msgs[-1].offset
 
     def encode(self, magic=None):
-        if self.raw is not None and (magic is None or magic == self.magic):
-            return self.raw
+        if self.raw is not None and (self.corrupt or magic is None or magic == self.magic):
+            return self.raw  # (a corrupted entry is served as stored: it cannot be converted)
         mg = self.magic if magic is None else magic
         if self.wrapper:
             ms = [Msg(m.offset, m.key, m.value, mg, m.timestamp if mg == 1 else None) for m in self.msgs]
